@@ -63,3 +63,21 @@ type EmbCase struct {
 	CaseInner
 	AbX int `json:"ab"`
 }
+
+// Embedded by pointer / by value, the promoted members tagged with an upper-case letter, the outer
+// struct with members tagged with exactly the lower-cased spellings.
+type PtrCaseInner struct {
+	Name  int `json:"Name"`
+	Other int `json:"Other"`
+	Plain int
+}
+type EmbPtrCase struct {
+	*PtrCaseInner
+	Lower int `json:"name"`
+	X     int `json:"other"`
+}
+type EmbValCase struct {
+	PtrCaseInner
+	Lower int `json:"name"`
+	X     int `json:"other"`
+}
